@@ -3,6 +3,7 @@ C08 — Formatting renders the truncated value in the requested shape.
 `genNewFormatSpec v` is the regenerated `newFormatSpec` of version v (tie 1).
 -/
 import Sqroot.Proofs.Format
+import Sqroot.Proofs.Overflow
 import Sqroot.Proofs.EndToEnd
 namespace Sqroot.Props.C08
 open Sqroot.Model Sqroot.Proofs
@@ -82,5 +83,20 @@ theorem format_end_to_end (c : MemoCfg) (m : Memo) (b v : Val3) (limits : List I
       txt = Spec.render verb prec width minus e
               (numberDigits m.src (Spec.winOf ((limits.map ViewOp.withSig).map toSpecOp)) 20000) :=
   Sqroot.Proofs.format_end_to_end c m b v limits e hb hv hnz hd hfit verb prec width minus hprec
+
+/-- `newFormatSpec` is regenerated into unbounded `Int`; its only arithmetic is `precision +
+exponent` (verbs f, F): whenever the requested digit count itself fits int64 no intermediate
+result of the Go code overflows, in all three versions, so the unbounded reading is the Go reading.
+(With an exponent within `precision` of MaxInt the Go sum wraps; the fixed-point output would then
+have more than 9·10^18 digits.) -/
+theorem format_spec_arithmetic_fits_int64 (precision exponent verb : Int) (precisionOk : Bool)
+    (hp : 0 ≤ precision ∧ Sqroot.Proofs.I64 precision) (he : Sqroot.Proofs.I64 exponent)
+    (hs : Sqroot.Proofs.I64 (precision + exponent) ∧ Sqroot.Proofs.I64 (6 + exponent)) :
+    Gen.V1.newFormatSpecOvf precision precisionOk verb exponent = false ∧
+    Gen.V2.newFormatSpecOvf precision precisionOk verb exponent = false ∧
+    Gen.V3.newFormatSpecOvf precision precisionOk verb exponent = false :=
+  ⟨Sqroot.Proofs.newFormatSpec_fits_v1 precision exponent verb precisionOk hp he hs,
+   Sqroot.Proofs.newFormatSpec_fits_v2 precision exponent verb precisionOk hp he hs,
+   Sqroot.Proofs.newFormatSpec_fits_v3 precision exponent verb precisionOk hp he hs⟩
 
 end Sqroot.Props.C08
